@@ -53,7 +53,8 @@ def run(res, tier, build_ok):
     # ---- init_device / constructors in the four configurations (fresh import each)
     devs = ["/dev/sg0", "/dev/", "/dev", "/dev/nvme0n1", "/Dev/sg0", " /dev/sg0", "dev/sg0", "/devx/sg", "iscsi://h/t/1", "iscsi://",
             "iscsi:/h/t/0", "ISCSI://h/t/0", "iscsi://10.0.0.1:3260/iqn.2001-04.com.example:x/0", "", "x", "file:///dev/sg0", "/dev/iscsi://",
-            "iscsi:///dev/sg0", "\\dev\\sg0"]
+            "iscsi:///dev/sg0", "\\dev\\sg0", "iscsi://[fe80::1", "http://[fe80::1", " iscsi://h/t/0", "iscsi:h/t/0", "iscsi:",
+            "Iscsi://h/t/0", "iscsi://[::1]:3260/iqn.t/0", "/dev/../dev/sg0", "/dev//sg0", "//dev/sg0", "/dev/sg0\x00"]
     for _ in range(20 * scale):
         devs.append("".join(rng.choice("/deviscsi:. x01") for _ in range(rng.randint(0, 14))))
     for has_sgio in (False, True):
@@ -114,6 +115,38 @@ def run(res, tier, build_ok):
                                 eff = "connect:%s:%s" % (hexs(dev), hexs([e for e in conns if e[0] == "context"][0][1]))
                             impl = "ok %s %s" % ("refused" if got == "refused" else "%s:%s" % (got, hexs(dev)), eff)
                             reqs.append(("initdev %s %d %d %d %s" % (hexs(dev), has_sgio, has_iscsi, rw, hexs(ini)), impl))
+            # ---- the two constructors called directly: same refusal rule, no effect when refused
+            for dev in devs:
+                for kind in ("scsi", "iscsi"):
+                    if dev.startswith("/dev/"):
+                        vos.nodes[dev] = 7
+                    del vos.log[:]
+                    if isc:
+                        del isc.LOG[:]
+                    try:
+                        d = SCSIDevice(dev, True) if kind == "scsi" else ISCSIDevice(dev, "iqn.2005-03.org.example:initiator")
+                        got = "opened"
+                    except NotImplementedError:
+                        got = "refused"
+                    except Exception as e:
+                        got = "raises " + type(e).__name__
+                    opens = [e for e in vos.log if e[0] == "open"]
+                    conns = [e for e in (isc.LOG if isc else []) if e[0] in ("context", "url", "connect")]
+                    ok = (dev.startswith("/dev/") and has_sgio) if kind == "scsi" else (dev.startswith("iscsi://") and has_iscsi)
+                    cfg = "sgio=%d iscsi=%d" % (has_sgio, has_iscsi)
+                    res.case(("ctor", kind, has_sgio, has_iscsi, dev), None)
+                    res.count("constructor " + kind)
+                    bad = None
+                    if got != ("opened" if ok else "refused"):
+                        bad = "%s(%r) with %s: %s, expected %s" % ("SCSIDevice" if kind == "scsi" else "ISCSIDevice", dev, cfg, got, "opened" if ok else "refused")
+                    elif not ok and (opens or conns):
+                        bad = "%s(%r) is refused but %s happened first" % (kind, dev, opens or conns)
+                    elif ok and kind == "scsi" and (len(opens) != 1 or opens[0][1] != dev):
+                        bad = "SCSIDevice(%r) opened %s" % (dev, opens)
+                    elif ok and kind == "iscsi" and ([e[1] for e in conns if e[0] == "url"] != [dev]):
+                        bad = "ISCSIDevice(%r) connected with %s" % (dev, conns)
+                    if bad:
+                        res.violation("constructor=%s config=%s result=%s" % (kind, cfg, got), bad, {"config": cfg, "device": dev, "constructor": kind, "result": got})
     common.bootstrap_repo()
     reps = drv.batch([r[0] for r in reqs])
     for (line, impl), rep in zip(reqs, reps):
